@@ -13,13 +13,13 @@ import (
 	"encoding/json"
 	"flag"
 	"fmt"
+	"github.com/avfs/avfs"
 	"os"
 	"path/filepath"
 	"sort"
 	"strconv"
 	"time"
 
-	"github.com/avfs/avfs/idm/memidm"
 	"github.com/avfs/avfs/verifrt"
 
 	"verif/lib/ev"
@@ -79,6 +79,36 @@ func main() {
 	seq, err := runSequential(*tier, depth, rep, seqDeadline)
 	if err != nil {
 		harness("sequential part: %v", err)
+	}
+
+	// the same histories on an identity manager emulating Windows (other names
+	// for the administrator user and group); needs the avfs_setostype build
+	if avfs.BuildFeatures()&avfs.FeatSetOSType != 0 {
+		idmOS = avfs.OsWindows
+
+		if g, _ := adminNames(); g == "root" {
+			harness("the Windows-typed MemIdm still uses the Linux names: SetOSType is not effective in this build")
+		}
+
+		wseq, err := runSequential(*tier, depth, rep, seqDeadline)
+		if err != nil {
+			harness("sequential part (Windows names): %v", err)
+		}
+
+		idmOS = avfs.OsLinux
+
+		for c, n := range wseq.Classes {
+			seq.Classes["windows: "+c] += n
+		}
+
+		seq.States += wseq.States
+		seq.Transitions += wseq.Transitions
+		seq.Evaluations += wseq.Evaluations
+		seq.Exhaustive = seq.Exhaustive && wseq.Exhaustive
+		seq.Bound += " (Linux names and Windows names)"
+		seq.Extra["seq_windows_pass"] = map[string]any{"states": wseq.States, "transitions": wseq.Transitions, "exhaustive": wseq.Exhaustive}
+	} else {
+		seq.Extra["seq_windows_pass"] = "not run: the build lacks the avfs_setostype tag"
 	}
 
 	conc, err := runConcurrent(*tier, rep, deadline)
@@ -188,7 +218,7 @@ func runReplay(path string) int {
 		return 2
 	}
 
-	idm := memidm.New()
+	idm := newIdm()
 	m := NewModel(e.adminG, e.adminU)
 	hit := false
 
